@@ -270,6 +270,30 @@ func (f *frame) resolveName(name string) (SV, bool) {
 	if name == "__rangeindex" {
 		name = "rangeindex"
 	}
+	// in an at_call clause a local variable denotes its value at the call: the value of the
+	// nearest debug reference before the call in the same block
+	if f.atCallCtx && f.curInstr != nil {
+		if blk := f.curInstr.Block(); blk != nil {
+			pos := -1
+			for i, in := range blk.Instrs {
+				if in == f.curInstr {
+					pos = i
+				}
+			}
+			for i := pos - 1; i >= 0; i-- {
+				if d, ok := blk.Instrs[i].(*ssa.DebugRef); ok && !d.IsAddr {
+					if id, ok := d.Expr.(*ast.Ident); ok && id.Name == name {
+						if sv, ok := f.vals[d.X]; ok {
+							return sv, true
+						}
+						if c, ok := d.X.(*ssa.Const); ok {
+							return f.enc.constTerm(c), true
+						}
+					}
+				}
+			}
+		}
+	}
 	// phi nodes, innermost loop first
 	var cands []*ssa.Phi
 	if f.curLoop != nil {
